@@ -37,8 +37,9 @@ def collect():
             dst = os.path.join(OUT, sid)
             os.makedirs(dst, exist_ok=True)
             meta = json.load(open(os.path.join(d, "meta.json")))
+            rebased = os.path.exists(os.path.join(dst, "patch.orig.diff"))      # patch.diff was re-based by hand onto a later /repo HEAD
             for f in os.listdir(d):
-                if f != "meta.json":
+                if f != "meta.json" and not (rebased and f == "patch.diff"):
                     shutil.copy(os.path.join(d, f), os.path.join(dst, f))
             old = {}
             if os.path.exists(os.path.join(dst, "meta.json")):
